@@ -79,14 +79,26 @@ func main() {
 			}
 			defer backendConn.Close()
 
+			// When either direction ends (because one peer closed its connection or failed),
+			// close both connections so that the other direction ends too, and the close is
+			// propagated to the other peer instead of being held back indefinitely.
 			var wg sync.WaitGroup
+			var closeOnce sync.Once
+			closeBoth := func() {
+				closeOnce.Do(func() {
+					conn.Close()
+					backendConn.Close()
+				})
+			}
 			wg.Add(2)
 			go func() {
 				defer wg.Done()
+				defer closeBoth()
 				io.Copy(backendConn, conn)
 			}()
 			go func() {
 				defer wg.Done()
+				defer closeBoth()
 				io.Copy(conn, backendConn)
 			}()
 			wg.Wait()
